@@ -69,6 +69,17 @@ var (
 	addSeq atomic.Int64
 )
 
+// A closing connection can be held right after it has raised its closed flag, before it is taken off the client's list
+// (the gate "cl.range" sits between the two): the state "listed but closed" then lasts as long as the driver wants.
+var (
+	rangeArmed  atomic.Bool
+	rangeAt     = make(chan struct{}, 1)
+	rangeGo     = make(chan struct{})
+	liveNow     atomic.Int64 // live connections in the last state the client under test reported
+	slowSeq     atomic.Int64 // its passes through the locked lookup
+	stalePhases atomic.Int64
+)
+
 func tracer(ev string, id bin.Bin128, a, b int64) {
 	if ev == "cg.slow" {
 		if gateOn.Load() {
@@ -77,6 +88,14 @@ func tracer(ev string, id bin.Bin128, a, b int64) {
 			for addSeq.Load() == start && time.Now().Before(deadline) {
 				time.Sleep(100 * time.Microsecond)
 			}
+		}
+		return
+	}
+	if ev == "cl.range" && rangeArmed.CompareAndSwap(true, false) {
+		rangeAt <- struct{}{}
+		select {
+		case <-rangeGo:
+		case <-time.After(tscale.D(20 * time.Second)):
 		}
 		return
 	}
@@ -101,6 +120,10 @@ func tracer(ev string, id bin.Bin128, a, b int64) {
 	earlyMu.Unlock()
 	if recOn && key == recID {
 		recEvs = append(recEvs, e)
+		liveNow.Store(int64(e.Live))
+		if ev == "cl.slow" {
+			slowSeq.Add(1)
+		}
 	}
 	recMu.Unlock()
 }
@@ -306,6 +329,9 @@ func runOnce(run int, c cfg, found func(sig, detail string)) []Event {
 			found("flags-after-close", fmt.Sprintf("closed=%v connected=%v disconnected=%v", cl.Closed().IsSet(), cl.Connected().IsSet(), cl.Disconnected().IsSet()))
 		}
 	default:
+		if c.Max >= 2 {
+			staleListed(run, c, cl, startServer, &held, found)
+		}
 		// an outage with a call in it: the server goes away, the connections the client still holds are dropped, a call
 		// is made (it fails, or is served by a connection that survived) and then the server comes back
 		stopServer()
@@ -367,6 +393,102 @@ func runOnce(run int, c cfg, found func(sig, detail string)) []Event {
 	return evs
 }
 
+// staleListed: the client holds two connections, one of them is closed and held before it is taken off the list; as long
+// as that lasts every lookup has to come back with the other one - at once, without a dial, with Connected still set.
+func staleListed(run int, c cfg, cl mpx.Client, startServer func(), held *sync.Map, found func(sig, detail string)) {
+	startServer()
+	// start from fresh connections: one that has reported its channel target once never does so again
+	for k := 0; k < c.Max+1; k++ {
+		cn, st := cl.Conn(async.TimeoutContext(tscale.D(time.Second)))
+		if !st.OK() {
+			break
+		}
+		// its close listener runs last in its close: afterwards it passes no gate any more
+		gone := make(chan struct{})
+		if _, ok := cn.OnClosed(func() { close(gone) }); !ok {
+			close(gone)
+		}
+		cn.Close()
+		select {
+		case <-gone:
+		case <-time.After(tscale.D(time.Second)):
+			return
+		}
+		time.Sleep(2 * time.Millisecond)
+	}
+	ctx := async.TimeoutContext(tscale.D(2 * time.Second))
+	older, st := cl.Conn(ctx)
+	if !st.OK() {
+		return
+	}
+	// reach the channel target of the connection, so that the client opens a second one.  (With two open connections a
+	// lookup always returns the first: the probe index is (i+j) mod n with j starting at i.  The second one shows in the
+	// client's state only.)
+	for try := 0; try < 200 && liveNow.Load() < 2; try++ {
+		ctx := async.TimeoutContext(300 * time.Millisecond)
+		if try < 4 {
+			if ch, st := cl.Channel(ctx); st.OK() {
+				ch.Send(ctx, []byte("hold"))
+				held.Store(ch, true)
+			}
+		}
+		time.Sleep(2 * time.Millisecond)
+	}
+	if liveNow.Load() < 2 || older.Closed().IsSet() {
+		return
+	}
+	victim := older
+	select {
+	case <-rangeAt:
+	default:
+	}
+	rangeArmed.Store(true)
+	victim.Close()
+	select {
+	case <-rangeAt:
+	case <-time.After(tscale.D(3 * time.Second)):
+		rangeArmed.Store(false)
+		if os.Getenv("MCLIENT_DEBUG") != "" {
+			fmt.Fprintf(os.Stderr, "stale: gate not reached\n")
+		}
+		return // the connection went another way (it was closing already)
+	}
+	defer func() { rangeGo <- struct{}{} }()
+	if !victim.Closed().IsSet() {
+		return // another connection came to the gate
+	}
+	stalePhases.Add(1)
+	slow0 := slowSeq.Load()
+	var other mpx.Conn
+	for k := 0; k < 64; k++ {
+		t0 := time.Now()
+		cn, st := cl.Conn(async.TimeoutContext(tscale.D(2 * time.Second)))
+		if other == nil && st.OK() && cn != victim {
+			other = cn
+		}
+		if other != nil && other.Closed().IsSet() {
+			return // the other connection was lost meanwhile: nothing to say
+		}
+		switch {
+		case !st.OK():
+			found("stale-listed:failed", fmt.Sprintf("lookup %d failed with %v while an open connection was listed next to a closed one", k, st))
+			return
+		case cn == victim:
+			found("stale-listed:closed", fmt.Sprintf("lookup %d returned the closed connection while an open one was listed next to it", k))
+			return
+		case cn != other:
+			found("stale-listed:other", fmt.Sprintf("lookup %d returned a new connection after %v while an open connection was listed next to a closed one", k, time.Since(t0)))
+			return
+		case slowSeq.Load() != slow0:
+			found("stale-listed:slow-path", fmt.Sprintf("lookup %d went through the locked path (and may have dialled) while an open connection was listed next to a closed one", k))
+			return
+		case !cl.Connected().IsSet() || cl.Disconnected().IsSet():
+			found("stale-listed:flags", fmt.Sprintf("after lookup %d: connected=%v disconnected=%v while an open connection is listed", k, cl.Connected().IsSet(), cl.Disconnected().IsSet()))
+			return
+		}
+	}
+}
+
 func main() {
 	outDir := flag.String("out", ".", "directory for trace files client_<max>_<auto>.ndjson")
 	runs := flag.Int("runs", 30, "runs per configuration")
@@ -410,5 +532,6 @@ func main() {
 	for a := 2; a <= 200; a++ {
 		table = append(table, int(mpx.VerifReconnectTimeout(a)/time.Millisecond))
 	}
-	enc.Encode(map[string]any{"summary": map[string]any{"runs": *runs * 6, "events": nEv, "findings": nFind, "by_sig": bySig, "backoff_ms_2_200": table}})
+	enc.Encode(map[string]any{"summary": map[string]any{"runs": *runs * 6, "events": nEv, "findings": nFind, "by_sig": bySig, "backoff_ms_2_200": table,
+		"stale_listed_phases": stalePhases.Load()}})
 }
